@@ -2,22 +2,24 @@
 import os
 import sys
 from pyvc.driver import main, native_bounded, VERIF
-from contracts import report_native
+from contracts import report_native, c03_notes
 
 
 def custom_native(ip, runner):
     code = report_native.C03 % {'native': os.path.join(VERIF, 'native')}
     return [native_bounded(runner, 'rating-views', 'the notes of (category, name) are the same alone, among neighbours, in any position, in either role, in text, JSON and --lookup (Terrapin context excluded); unknown names are flagged in every view',
                            code, 'every database name (gss-* instantiated) alone and inside peers covering the database, both roles, reversed order; 5 unknown names',
-                           'ssh_audit:build_struct.fetch_notes')]
+                           'ssh_audit:build_struct.fetch_notes (run-time, every database name)')]
 
 
 def build(chk, ip, runner):
     chk.design_ref = 'DESIGN.md section 5 C03'
-    chk.units = []
+    chk.units = c03_notes.units()
+    chk.stubs = c03_notes.stubs()
     chk.customs = [custom_native]
     chk.level = 'other'
-    chk.explanation = 'bounded run-time contract check over every database name in every view (the deductive part of this property is C02\'s output_algorithm contract: the result is a function of the looked-up entry only)'
+    chk.explanation = ('the JSON view\'s note extraction proved against an arbitrary table (notes == the entry\'s cells, table unchanged); agreement of text, JSON and --lookup '
+                       'by a bounded run-time contract check over every database name')
 
 
 if __name__ == '__main__':
